@@ -731,11 +731,11 @@ def _firstuse_once(case, rec):
 
 
 CHECKS = [
-    Check("sequential", run=run_seq, strategy=strat_seq, examples=(6000, 120000), shards=(16, 16),
+    Check("sequential", run=run_seq, strategy=strat_seq, examples=(6000, 40000), shards=(16, 16),
           rule="interleaved programs over 2..5 objects (+copy, del/gc): every object's outputs equal a fresh replay of its own history"),
-    Check("preserve", run=run_pres, strategy=strat_pres, examples=(3000, 60000), shards=(16, 16),
+    Check("preserve", run=run_pres, strategy=strat_pres, examples=(3000, 24000), shards=(16, 16),
           rule="caller-owned inputs (buffers, keys, hash/XOF objects, points, integers) unchanged after public calls"),
-    Check("threads", run=run_threads, strategy=strat_threads, examples=(160, 3000), shards=(8, 8),
+    Check("threads", run=run_threads, strategy=strat_threads, examples=(160, 1600), shards=(8, 8),
           rule="2..16 threads running independent generated workloads: outputs equal the serial run, no exception"),
     Check("firstuse", run=run_firstuse, cases=cases_firstuse, shards=(12, 12),
           rule="concurrent first use of each curve in a fresh interpreter (8 and 16 threads, loader window widened): no exception, consistent objects"),
